@@ -148,6 +148,10 @@ def py_len(it, x):
     if isinstance(x, SSet):
         return len(x.items)
     if isinstance(x, SCardSet):
+        kl = getattr(x, 'known_len', None)
+        if kl is not None and len(kl[1]) == len(x.guards) and \
+                all(a is b for a, b in zip(kl[1], x.guards)):
+            return kl[0]
         n = 0
         ts = []
         for g in x.guards:
